@@ -1,13 +1,15 @@
 """C08 — put_or_update changes exactly what was requested, or acts as put.  (DESIGN §4 C08)"""
 import itertools
 from core import (strip_site, same_value, fmt, enum_paths, path_atoms, path_calls, path_return, ret_variant, mentions,
-                  subexprs, is_call_to, root_calls, inline_ctor, const_of, dashmap_call, closure_captures)
+                  subexprs, is_call_to, root_calls, inline_ctor, const_of, dashmap_call, closure_captures, unclone)
 from livemodel import LiveModel, rooted_in_param
 from storemodel import StoreModel
 from tickermodel import TickerModel
 from ackmodel import AckModel
 
 WITNESSES = ['W2EntryUpdatePrivate']
+from sym import ipaths
+
 LEVEL = "other"
 EXPLANATION = ("Finite decision tables extracted from MIR and compared with the specification: the field-wise entry "
                "update over (remove-ttl flag, ttl Some/None, value Some/None); the classification of the expiry "
@@ -99,62 +101,68 @@ def run(ctx):
     ctx.floor("R08.2", "expiry-change classification functions", len(cls), 1)
     for f in cls:
         ctx.touch(f)
-        paths = enum_paths(f)
-        ctx.analysed["paths"] += len(paths)
-        # symbols: E = existing expiry option, N = new expiry option (distinct option-typed values tested with is_some/is_none)
-        syms = []
-        for p in paths:
-            for a in path_atoms(f, p):
-                if a[0] == "bool" and a[1][0] == "call" and a[1][1].startswith("std::option::Option::<T>::is_"):
-                    x = strip_site(a[1][2][0])
-                    if x not in syms:
-                        syms.append(x)
-        ok_syms = len(syms) == 2
+        # symbols: the response's option fields.  E = expiry the entry had (inside the `Some((id, expiry))` field), N = new expiry
+        adt = F.adts.get((f.rec.get("self_ty") or "").split("<")[0])
+        fields = adt["variants"][0]["fields"] if adt else []
+        nf = [x["name"] for x in fields if x["ty"].startswith("std::option::Option<std::time::SystemTime")]
+        ef = [x["name"] for x in fields if x["ty"].startswith("std::option::Option<") and "KeyIdExpiry" in x["ty"]]
         bad = []
-        if not ok_syms:
-            bad.append("expected exactly two option values to be examined, found %d" % len(syms))
+        paths = []
+        if len(nf) != 1 or len(ef) != 1:
+            bad.append("cannot tell the existing-expiry and new-expiry fields of the response type apart")
         else:
-            # which one is the *existing* expiry: the one derived from the entry's previous state (a call), the new one is a plain field
-            E = [s for s in syms if s[0] == "call"]
-            N = [s for s in syms if s[0] != "call"]
-            if len(E) != 1 or len(N) != 1:
-                bad.append("cannot tell existing from new expiry")
-            else:
-                E, N = E[0], N[0]
-                for (e_some, n_some, differ) in itertools.product((False, True), repeat=3):
-                    if not (e_some and n_some) and differ is False:
-                        pass
-                    want = oracle(e_some, n_some, differ)
-                    got = set()
-                    for p in paths:
-                        atoms = path_atoms(f, p)
-                        consistent = True
-                        for a in atoms:
-                            if a[0] != "bool":
-                                continue
-                            x = a[1]
-                            if x[0] == "call" and x[1].startswith("std::option::Option::<T>::is_"):
-                                s = strip_site(x[2][0])
-                                is_some = x[1].endswith("is_some")
-                                truth = (e_some if s == E else n_some) if is_some else not (e_some if s == E else n_some)
-                                if truth != a[2]:
-                                    consistent = False
-                            elif x[0] == "call" and x[1].endswith(("PartialEq::ne", "PartialEq::eq")):
-                                d = differ if (e_some and n_some) else (e_some != n_some)
-                                truth = d if x[1].endswith("ne") else not d
-                                if truth != a[2]:
-                                    consistent = False
-                            elif x[0] in ("phi", "const"):
-                                continue
-                            else:
-                                bad.append("unrecognised test %s" % fmt(x))
-                        if consistent:
-                            r = path_return(f, p, atoms)
-                            got.add(describe(r, E, N))
-                    if got != {want}:
-                        bad.append("(existing %s, new %s, %s) -> %s, expected %s" % ("Some" if e_some else "None", "Some" if n_some else "None", "differ" if differ else "equal", sorted(got), want))
+            me = ("param", 1)
+            pair = ("field", ("variant", ("field", me, ef[0]), "Some"), "0")
+            E = ("field", pair, "1")
+            N = ("field", me, nf[0])
+            ID = ("field", pair, "0")
+            OLD = ("field", ("variant", E, "Some"), "0")
+            NEW = ("field", ("variant", N, "Some"), "0")
+            paths = ipaths(F, f, stop=lambda n: False, depth=3, model_unwrap=True)
+            ctx.analysed["paths"] += len(paths)
+
+            def sym(x):
+                x = strip_site(unclone(x))
+                return {ID: "id", OLD: "old", NEW: "new"}.get(x, "?")
+
+            def describe_(r):
+                if r[0] != "agg":
+                    return fmt(r)[:40]
+                fs = [x for _, x in r[3]]
+                return r[2] if not fs else "%s(%s)" % (r[2], ",".join(sym(x) for x in fs))
+            covered = set()
+            for p in paths:
+                e, n = p.variant_of(E), p.variant_of(N)
+                differ = None
+                for a in p.atoms:
+                    if a[0] == "bool" and a[1][0] == "call" and a[1][1].endswith(("PartialEq::ne", "PartialEq::eq")) and len(a[1][2]) == 2:
+                        ops = {strip_site(unclone(z)) for z in a[1][2]}
+                        if ops == {E, N} or ops == {OLD, NEW}:
+                            differ = a[2] if a[1][1].endswith("ne") else not a[2]
+                        else:
+                            bad.append("unrecognised comparison %s" % fmt(a[1])[:80])
+                    elif a[0] == "bool" and a[1][0] not in ("phi", "const"):
+                        bad.append("unrecognised test %s" % fmt(a[1])[:80])
+                got = describe_(p.ret)
+                for (e_some, n_some, d) in itertools.product((False, True), repeat=3):
+                    if e is not None and (e == ("Some",)) != e_some:
+                        continue
+                    if n is not None and (n == ("Some",)) != n_some:
+                        continue
+                    dd = d if (e_some and n_some) else (e_some != n_some)
+                    if differ is not None and differ != dd:
+                        continue
+                    if not (e_some and n_some) and d is False:
+                        continue      # `differ` is meaningless unless both are Some: one representative
+                    covered.add((e_some, n_some, d))
+                    want = oracle(e_some, n_some, d)
+                    if got != want:
+                        bad.append("(existing %s, new %s, %s) -> %s, expected %s" % ("Some" if e_some else "None", "Some" if n_some else "None", "differ" if d else "equal", got, want))
+            allst = {(a_, b_, c_) for (a_, b_, c_) in itertools.product((False, True), repeat=3) if (a_ and b_) or c_}
+            if covered != allst:
+                bad.append("abstract states never reached: %s" % sorted(allst - covered))
         ctx.check(not bad, "R08.2", "%s|classification-table" % f.name,
-                  "None/None -> Nothing; None/Some -> Added(id,new); Some/None -> Deleted(id,old); Some/Some differing -> Updated(id,old,new); Some/Some equal -> Nothing (8 abstract states x %d paths)" % len(paths),
+                  "None/None -> Nothing; None/Some -> Added(id,new); Some/None -> Deleted(id,old); Some/Some differing -> Updated(id,old,new); Some/Some equal -> Nothing (5 abstract states x %d symbolic paths)" % len(paths),
                   f.where(), "; ".join(sorted(set(bad))[:4]))
 
     # ---- the public upsert function ---------------------------------------------------------------------
